@@ -76,8 +76,23 @@ func scanAndDump(files map[string]string, entry string, cfg linkCfg) (*linker.Ve
 		dump = linker.VerifC02Link(options, timer, lg, f, res, inputFiles, entryPoints, uniqueKeyPrefix, reachableFiles, dataForSourceMaps)
 		return nil
 	})
-	return dump, scanMsgs, log2.Done()
+	linkMsgs := log2.Done()
+	lastOutput = ""
+	if dump != nil && !dump.HasErrors {
+		log3 := logger.NewDeferLog(logger.DeferLogNoVerboseOrDebug, nil)
+		outs, _ := b.Compile(log3, nil, nil, linker.Link)
+		log3.Done()
+		for _, o := range outs {
+			if strings.HasSuffix(o.AbsPath, ".js") {
+				lastOutput = string(o.Contents)
+			}
+		}
+	}
+	return dump, scanMsgs, linkMsgs
 }
+
+// text of the bundle the real linker.Link produced for the last scanAndDump call (unminified)
+var lastOutput string
 
 var reCycle = regexp.MustCompile(`^Detected cycle while resolving import "(.*)"$`)
 var reAmbig = regexp.MustCompile(`^Ambiguous import "(.*)" has multiple matching exports$`)
@@ -255,16 +270,25 @@ func runC02(seed uint64, n int, tier string, outDir string) []*Stats {
 
 	// ---- linker correspondence ----
 	var cases []string
+	var emitCases []string
 	nCorr := n
 	formats := []config.Format{config.FormatESModule, config.FormatCommonJS, config.FormatIIFE}
 	platforms := []config.Platform{config.PlatformNode, config.PlatformNeutral, config.PlatformBrowser}
+	forceFormat := -1
 	addCase := func(g *ggraph, kind string) {
 		files := g.render()
 		cfg := linkCfg{formats[r.Intn(3)], platforms[r.Intn(3)]}
+		if forceFormat >= 0 {
+			cfg.format = formats[forceFormat]
+		}
 		d, scanMsgs, linkMsgs := scanAndDump(files, g.mods[g.entry].path, cfg)
 		if d == nil {
 			st.Note("corr:scan-error", fmt.Sprint(len(scanMsgs)), false)
 			return
+		}
+		if ec, ok := emitCase(d, cfg, lastOutput); ok {
+			emitCases = append(emitCases, ec)
+			st.Note("emit:"+[]string{"", "iife", "cjs", "esm"}[int(cfg.format)%4], ec, true)
 		}
 		c, ok := dumpToCoq(d, linkMsgs, cfg)
 		if !ok {
@@ -282,8 +306,12 @@ func runC02(seed uint64, n int, tier string, outDir string) []*Stats {
 		}
 	}
 	for _, g := range fixedGraphs() {
-		addCase(g, "fixed")
+		// the boundary graphs are linked in all three output formats
+		for forceFormat = 0; forceFormat < 3; forceFormat++ {
+			addCase(g, "fixed")
+		}
 	}
+	forceFormat = -1
 	if wp := os.Getenv("VERIF_C02_WITNESS"); wp != "" {
 		// development aid: print the Coq terms of the recorded-finding graphs
 		var ws []string
@@ -303,6 +331,7 @@ func runC02(seed uint64, n int, tier string, outDir string) []*Stats {
 		}
 		addCase(g, kind)
 	}
+	cf.AddCases("emit_cases", "emit_case", "check_emit", emitCases)
 	cf.AddCases("reach_cases", "case", "check_reach", cases)
 	extra := ""
 	for _, chk := range []string{"classify", "resolved", "match", "order", "spec_order", "spec_resolve"} {
@@ -420,4 +449,121 @@ fs.writeFileSync(process.argv[3], JSON.stringify(out));
 			st.Fail("dataurl-decodes-to-different-bytes", map[string]interface{}{"text_hex": want, "url": urls[i]}, got[i], want)
 		}
 	}
+}
+
+var reToCJSAssign = regexp.MustCompile(`^\s*module\.exports = __toCommonJS\((\w+)\);$`)
+var reToCJSReturn = regexp.MustCompile(`^\s*return __toCommonJS\((\w+)\);$`)
+var reExportCall = regexp.MustCompile(`^\s*__export\((\w+), \{$`)
+var reExportItem = regexp.MustCompile(`^\s+("(?:[^"\\]|\\.)*"|[\w$]+): \(\) =>`)
+var reReExport = regexp.MustCompile(`^\s*__reExport\((\w+), (.*)\);$`)
+var reClauseItem = regexp.MustCompile(`^\s+(?:[\w$]+ as )?("(?:[^"\\]|\\.)*"|[\w$]+),?$`)
+
+// emitCase: the statements of the real bundle that decide the entry point's external exports
+// (ES-module entry that is not wrapped), to be compared with Emit.entry_stmts
+func emitCase(d *linker.VerifC02Dump, cfg linkCfg, text string) (string, bool) {
+	if text == "" || len(d.Entries) != 1 {
+		return "", false
+	}
+	var entry *linker.VerifC02File
+	kindOf := map[uint32]uint8{}
+	for i := range d.Files {
+		kindOf[d.Files[i].Index] = d.Files[i].ExportsKind
+		if d.Files[i].Index == d.Entries[0] {
+			entry = &d.Files[i]
+		}
+	}
+	if entry == nil || !entry.IsJS || entry.Wrap != 0 || entry.ExportsKind == 1 || !entry.ExportKw || entry.HasLazy {
+		return "", false
+	}
+	ids := map[string]int{"default": 0}
+	var aliases []string
+	for i, a := range entry.Sorted {
+		if a != "default" {
+			ids[a] = i + 1
+		}
+		aliases = append(aliases, fmt.Sprint(ids[a]))
+	}
+	idOf := func(tok string) int {
+		if strings.HasPrefix(tok, "\"") {
+			var sdec string
+			if json.Unmarshal([]byte(tok), &sdec) == nil {
+				tok = sdec
+			}
+		}
+		if v, ok := ids[tok]; ok {
+			return v
+		}
+		return -1
+	}
+	ndyn := 0
+	for _, ri := range entry.Stars {
+		r := entry.Records[ri]
+		if r.Target >= 0 && uint32(r.Target) != entry.Index && (kindOf[uint32(r.Target)] == 1 || kindOf[uint32(r.Target)] == 3) {
+			ndyn++
+		}
+	}
+	lines := strings.Split(text, "\n")
+	// the entry's exports object
+	E := ""
+	for _, ln := range lines {
+		if m := reToCJSAssign.FindStringSubmatch(ln); m != nil {
+			E = m[1]
+		}
+		if m := reToCJSReturn.FindStringSubmatch(ln); m != nil {
+			E = m[1]
+		}
+	}
+	fz := map[config.Format]int{config.FormatESModule: 0, config.FormatCommonJS: 1, config.FormatIIFE: 2}[cfg.format]
+	var obs []string
+	if cfg.format == config.FormatESModule {
+		// only the export clause is compared
+		start := -1
+		for i, ln := range lines {
+			if strings.TrimSpace(ln) == "export {" {
+				start = i
+			}
+		}
+		if start >= 0 {
+			var names []string
+			for _, ln := range lines[start+1:] {
+				if strings.HasPrefix(strings.TrimSpace(ln), "}") {
+					break
+				}
+				if m := reClauseItem.FindStringSubmatch(ln); m != nil {
+					names = append(names, CZi(idOf(m[1])))
+				}
+			}
+			obs = append(obs, "OC ["+strings.Join(names, ";")+"]")
+		}
+	} else {
+		if E == "" {
+			return "", false
+		}
+		for i := 0; i < len(lines); i++ {
+			ln := lines[i]
+			if m := reExportCall.FindStringSubmatch(ln); m != nil && m[1] == E {
+				var names []string
+				for i++; i < len(lines); i++ {
+					if mm := reExportItem.FindStringSubmatch(lines[i]); mm != nil {
+						names = append(names, CZi(idOf(mm[1])))
+					} else {
+						break
+					}
+				}
+				obs = append(obs, "OX ["+strings.Join(names, ";")+"]")
+				i--
+				continue
+			}
+			if m := reToCJSAssign.FindStringSubmatch(ln); m != nil {
+				obs = append(obs, "OA")
+			}
+			if m := reToCJSReturn.FindStringSubmatch(ln); m != nil {
+				obs = append(obs, "ORet")
+			}
+			if m := reReExport.FindStringSubmatch(ln); m != nil && m[1] == E {
+				obs = append(obs, "OR "+CBool(strings.HasSuffix(m[2], ", module.exports")))
+			}
+		}
+	}
+	return fmt.Sprintf("(%d, %s, [%s], %d, [%s])", fz, CBool(entry.ExportKw), strings.Join(aliases, ";"), ndyn, strings.Join(obs, "; ")), true
 }
